@@ -253,6 +253,49 @@ def dedupe(seq):
     return out
 
 
+def head_states(chk):
+    """the (commit, dirty) pair recorded with a version, in every state of the work tree: clean, a tracked file edited,
+    the edit staged, a new file staged, a tracked file removed from the index, only an untracked file -- judged against
+    `git rev-parse HEAD` and `git status --porcelain --untracked-files=no`"""
+    import subprocess
+    import implrun
+    import select_util
+
+    env = dict(os.environ, **select_util.GIT_ENV)
+
+    def git(root, *a):
+        return subprocess.run(["git"] + list(a), cwd=root, env=env, capture_output=True, text=True, check=True).stdout
+
+    states = [
+        ("clean", lambda r: None),
+        ("edited-unstaged", lambda r: open(os.path.join(r, "data.txt"), "a").write("x\n")),
+        ("edited-staged", lambda r: (open(os.path.join(r, "data.txt"), "a").write("x\n"), git(r, "add", "data.txt"))),
+        ("new-file-staged", lambda r: (open(os.path.join(r, "new.txt"), "w").write("n\n"), git(r, "add", "new.txt"))),
+        ("removed-from-index", lambda r: git(r, "rm", "-q", "--cached", "other.txt")),
+        ("untracked-only", lambda r: open(os.path.join(r, "stray.txt"), "w").write("s\n")),
+        ("staged-then-reverted-in-tree", lambda r: (open(os.path.join(r, "data.txt"), "a").write("x\n"), git(r, "add", "data.txt"), open(os.path.join(r, "data.txt"), "w").write("d\n"))),
+    ]
+    for name, mutate in states:
+        root = implrun.make_project({"COND": 'run_experiment(name="e", run="true")\n', "data.txt": "d\n", "other.txt": "o\n", ".gitignore": "cond-out\n"}, git=True)
+        git(root, "init", "-q", "-b", "main")
+        git(root, "add", "-A")
+        git(root, "commit", "-q", "-m", "c0")
+        mutate(root)
+        head = git(root, "rev-parse", "HEAD").strip()
+        want_dirty = git(root, "status", "--porcelain", "--untracked-files=no").strip() != ""
+        res = implrun.run_cond(["run", "//:e"], root, env=env, timeout=60)
+        rows = implrun.index_rows(root)
+        chk.coverage["evaluations"] += 1
+        chk.count("head-state", name)
+        got = [(r[2], bool(r[3])) for r in rows]
+        if res.code != 0 or got != [(head, want_dirty)]:
+            msg = "work tree state %s: the version was recorded with %r, HEAD is (%r, dirty=%r) (cond exit %s)" % (name, got, head, want_dirty, res.code)
+            chk.violation("impl-violation", msg, {"input": {"part": "head-states", "state": name}, "impl_observation": {"rows": [list(r) for r in rows], "exit": res.code, "output": (res.out + res.err)[-600:]},
+                                                    "oracle_verdict": {"commit": head, "dirty": want_dirty}}, match_key={"head-state": name}, size=1)
+        else:
+            chk.coverage["traces_validated_against_impl"] += 1
+
+
 def run(tier, seed, replay=None):
     chk = Check("C06", tier, seed)
     chk.build_proofs(["Model/Store.vo", "Lib/Cmp.vo", "Refuted/StoreOld.vo"])
@@ -281,6 +324,7 @@ def run(tier, seed, replay=None):
         st["project"].cleanup()
         return chk.finish()
 
+    head_states(chk)
     scs = scenarios(tier, chk.rng)
     total_runs = 0
     states_seen = 0
